@@ -28,7 +28,7 @@ RULE = (
     "non-trivial = at least one dimension is split into >= 2 chunks"
 )
 SPACE = {
-    "quick": "(A) dims (t:2, yc:2, x:4) every chunk composition (2 x 2 x 8; outer 16, inner 4) x {diff,interp,min,max,cumsum,derivative,cumint} x 8 shifts + integrate/average + ops along Y + lazy metrics + apply_as_grid_ufunc with/without map_overlap + user ufuncs with halo widths up to 3 (wider than some chunks) x 3 rules + inputs with the core dimension first / float32 / a dask-backed auxiliary coordinate; joint compute of two results; (B) 2-face grid, every chunking of (t, face) x scalar/vector x {diff,interp}; (C) 26 graphs, all task orders with <= 1 deviation; (D) threaded scheduler on every 5th case",
+    "quick": "(A) dims (t:2, yc:2, x:4) every chunk composition (2 x 2 x 8; outer 16, inner 4) x {diff,interp,min,max,cumsum,derivative,cumint} x 8 shifts + integrate/average + ops along Y + lazy metrics + apply_as_grid_ufunc with/without map_overlap + user ufuncs with halo widths up to 3 (wider than some chunks) x 3 rules + a kernel that is not dask-aware under map_overlap + a two-axis user ufunc with unequal halos listed in either order + inputs with the core dimension first / float32 / a dask-backed auxiliary coordinate; joint compute of two results; (B) 2-face grid, every chunking of (t, face) x scalar/vector x {diff,interp}; (C) 26 graphs, all task orders with <= 1 deviation; (D) threaded scheduler on every 5th case",
     "thorough": "x:5; (C) <= 2 deviations; (D) every case",
 }
 BOUNDS = {"quick": {"N": 4, "deviations": 1}, "thorough": {"N": 5, "deviations": 2}}
@@ -109,8 +109,29 @@ def call_multi(g, da, kind):
                                  boundary_width={"X": (1, 0)}, boundary="fill", fill_value=2.0, dask="parallelized")
 
 
+def _ufunc_np(a):
+    # a kernel that is not dask-aware (it asks for a real array): under map_overlap it only ever sees in-memory blocks
+    a = np.asarray(a)
+    return a[..., 1:] - a[..., :-1]
+
+
+def _ufunc2d(a):
+    # trailing axes (X extended by (1, 1), Y by (0, 1))
+    return a[..., 1:-1, :-1] * 2.0 + a[..., :-2, :-1] - a[..., 2:, 1:]
+
+
+BW2D = {"sig-order": {"X": (1, 1), "Y": (0, 1)}, "reversed": {"Y": (0, 1), "X": (1, 1)}}
+
+
+def call_ufunc2d(g, da, mo, kind):
+    """a two-axis user ufunc with different total halo widths on the two axes; the widths listed in either order"""
+    return g.apply_as_grid_ufunc(_ufunc2d, da, axis=[("X", "Y")], signature="(X:center,Y:center)->(X:center,Y:center)",
+                                 boundary_width=dict(BW2D[kind]), boundary={"X": "fill", "Y": "extend"}, fill_value={"X": 3.0, "Y": 0.0},
+                                 dask="allowed" if mo else "parallelized", map_overlap=mo)
+
+
 def call_ufunc(g, da, mo):
-    return g.apply_as_grid_ufunc(_ufunc, da, axis=[("X",)], signature="(X:center)->(X:left)", boundary_width={"X": (1, 0)},
+    return g.apply_as_grid_ufunc(_ufunc_np if mo else _ufunc, da, axis=[("X",)], signature="(X:center)->(X:left)", boundary_width={"X": (1, 0)},
                                  boundary="fill", fill_value=3.0, dask="allowed" if mo else "parallelized", map_overlap=mo)
 
 
@@ -212,6 +233,7 @@ def part_A(rec, tier, seed, fr, to, only=None):
                             ("cumsum", ["Y", "X"], dict(to="left")), ("interp", ["X", "Y"], dict(to="left", boundary="fill", fill_value=2.0)),
                             ("ufunc", "mo", {}), ("ufunc", "nomo", {})]
                     ops += [("multi", "1to2", {}), ("multi", "2to1", {})]
+                    ops += [("ufunc2d", "sig-order", {}), ("ufunc2d", "reversed", {})]
                     # user ufuncs whose halo is wider than some chunks
                     ops += [("wide", (wi, rule), {}) for wi in range(len(WIDE)) for rule in ("fill", "periodic", "extend")]
                 if fr != "center" and to == "center":
@@ -223,7 +245,7 @@ def part_A(rec, tier, seed, fr, to, only=None):
                         if only is not None and only != {k: v for k, v in case.items()} and only != dict(case, layout="x-first-float32") and only != dict(case, layout="dask-aux-coordinate") and not (op == "wide" and only == dict(case, axis=list(axis))):
                             continue
                         gg = glazy if lm else g
-                        chunked_axis = len(cx) > 1 if (axis == "X" or axis == "mo" or axis == "nomo" or op == "wide" or (isinstance(axis, list) and "X" in axis)) else False
+                        chunked_axis = len(cx) > 1 if (axis == "X" or axis == "mo" or axis == "nomo" or op in ("wide", "ufunc2d") or (isinstance(axis, list) and "X" in axis)) else False
                         chunked_y = len(cy) > 1 and (axis == "Y" or (isinstance(axis, list) and "Y" in axis))
                         if op == "multi":
                             if len(cx) > 1:
@@ -238,6 +260,10 @@ def part_A(rec, tier, seed, fr, to, only=None):
                             eager = lambda: call_wide(gg, e_in, False, wi, wrule)
                             refuse = False
                             chunked_axis = len(cx) > 1
+                        elif op == "ufunc2d":
+                            build = lambda: call_ufunc2d(gg, e_in.chunk(chunks), True, axis)
+                            eager = lambda: call_ufunc2d(gg, e_in, False, axis)
+                            refuse = False
                         elif op == "ufunc":
                             if axis == "nomo" and len(cx) > 1:
                                 continue  # outside the statement: xarray itself refuses chunked core dims without map_overlap
@@ -249,7 +275,7 @@ def part_A(rec, tier, seed, fr, to, only=None):
                             eager = lambda: call(gg, op, e_in, axis, kw)
                             refuse = chunked_axis and io and op in REFUSABLE
                         anych = len(cx) > 1 or len(ct) > 1 or len(cy) > 1
-                        if op not in ("ufunc", "wide", "multi") and idx % 4 == 1:
+                        if op not in ("ufunc", "wide", "multi", "ufunc2d") and idx % 4 == 1:
                             # the operated dimension first, in single precision: neither the position of
                             # the core dimension among the others nor the dtype may matter
                             e_t = e_in.transpose(POSD[fr], "t", "yc").astype(np.float32)
@@ -257,14 +283,14 @@ def part_A(rec, tier, seed, fr, to, only=None):
                             build = lambda: call(gg, op, e_t.chunk(chunks), axis, kw)
                             eager = lambda: call(gg, op, e_t, axis, kw)
                         second = None
-                        if op not in ("ufunc", "wide", "multi") and idx % 6 == 2:
+                        if op not in ("ufunc", "wide", "multi", "ufunc2d") and idx % 6 == 2:
                             # the input carries a dask-backed 2-D auxiliary coordinate chunked differently from the data
                             aux = xr.DataArray(np.arange(2.0 * m).reshape(2, m), dims=["yc", POSD[fr]]).chunk({"yc": 1, POSD[fr]: m})
                             e_aux = e_in.assign_coords(aux=aux)
                             case = dict(case, layout="dask-aux-coordinate")
                             build = lambda: call(gg, op, e_in.chunk(chunks).assign_coords(aux=aux), axis, kw)
                             eager = lambda: call(gg, op, e_aux.compute(), axis, kw)
-                        if op not in ("ufunc", "wide", "multi") and idx % 3 == 0:
+                        if op not in ("ufunc", "wide", "multi", "ufunc2d") and idx % 3 == 0:
                             e2_in = (e_in * 3 + 1).rename("q2")
                             second = (lambda: call(gg, op, e2_in.chunk(chunks), axis, kw), lambda: call(gg, op, e2_in, axis, kw))
                         check_lazy(rec, "simple-grid", case, build, eager, refuse, anych,
